@@ -553,3 +553,124 @@ Proof.
   assert (E : live (l1 ++ CEmptyGroup :: l2) = live (l1 ++ l2)) by (rewrite !live_app; reflexivity).
   unfold calculate_bounding_boxes, calculate_object_bbox, union_of, union_opt. rewrite E. split; reflexivity.
 Qed.
+
+(* ------------------------------------------------------------------ arbitrary affine transforms: boxes contain the painted points *)
+Lemma inside_of_contains b c x y : contains b c -> inside c x y -> inside b x y.
+Proof. unfold contains, inside. intros (A&B&C&D) ((E&F)&(G&H)). repeat split; eapply Qle_trans; eassumption. Qed.
+
+Lemma pts_bbox_contains l b p : pts_bbox l = Some b -> In p l -> inside b (fst p) (snd p).
+Proof.
+  unfold pts_bbox. intros H Hin.
+  change (fold_left (fun a c => match (fun q => Some (pt_box q)) c with Some r => expand a r | None => a end) l None = Some b) in H.
+  destruct (fold_expand_contains (fun q => Some (pt_box q)) l None b H) as [_ Hc].
+  specialize (Hc p (pt_box p) Hin eq_refl). unfold contains, pt_box in Hc. cbn in Hc. unfold inside. tauto.
+Qed.
+
+Lemma pts_bbox_some l p : In p l -> exists b, pts_bbox l = Some b.
+Proof.
+  intros Hin. unfold pts_bbox. destruct (fold_left (fun a q => expand a (pt_box q)) l None) as [b|] eqn:E; [eauto|].
+  exfalso. apply (fold_expand_nonempty pt_box l None); [right; destruct l; [contradiction|discriminate] | exact E].
+Qed.
+
+(* Path::new, both branches: the absolute box of an unstroked polygonal path contains the image of every vertex under
+   ANY affine abs_transform (rotation, skew, mirror, singular) *)
+Theorem path_abs_contains_vertex t pts b p :
+  path_abs_bbox t pts = Some b -> In p pts -> inside b (map_x t (fst p) (snd p)) (map_y t (fst p) (snd p)).
+Proof.
+  unfold path_abs_bbox. destruct (ts_has_skew t); intros H Hin.
+  - apply (pts_bbox_contains _ b (apply_ts t p) H). apply in_map. exact Hin.
+  - destruct (pts_bbox pts) as [b0|] eqn:E; [|discriminate].
+    apply (rect_transform_bounds t b0 b _ _ H). apply (pts_bbox_contains pts b0 p E Hin).
+Qed.
+
+(* a box is convex, an affine map preserves convex combinations: every point of every segment is inside as well *)
+Lemma between_convex a b u v l : a <= u <= b -> a <= v <= b -> 0 <= l <= 1 -> a <= (1 - l) * u + l * v <= b.
+Proof.
+  intros [U0 U1] [V0 V1] [L0 L1].
+  assert (0 <= (1 - l) * (u - a)) by (apply Qmult_le_0_compat; lra).
+  assert (0 <= l * (v - a)) by (apply Qmult_le_0_compat; lra).
+  assert (0 <= (1 - l) * (b - u)) by (apply Qmult_le_0_compat; lra).
+  assert (0 <= l * (b - v)) by (apply Qmult_le_0_compat; lra).
+  split; lra.
+Qed.
+Lemma inside_convex b x1 y1 x2 y2 l :
+  inside b x1 y1 -> inside b x2 y2 -> 0 <= l <= 1 -> inside b ((1 - l) * x1 + l * x2) ((1 - l) * y1 + l * y2).
+Proof. unfold inside. intros [A B] [C D] L. split; apply between_convex; assumption. Qed.
+Lemma apply_mix t l p q :
+  fst (apply_ts t (mix l p q)) == (1 - l) * fst (apply_ts t p) + l * fst (apply_ts t q) /\
+  snd (apply_ts t (mix l p q)) == (1 - l) * snd (apply_ts t p) + l * snd (apply_ts t q).
+Proof. unfold apply_ts, mix, map_x, map_y. cbn. split; ring. Qed.
+
+Theorem path_abs_contains_segment t pts b p q l :
+  path_abs_bbox t pts = Some b -> In p pts -> In q pts -> 0 <= l <= 1 ->
+  inside b (fst (apply_ts t (mix l p q))) (snd (apply_ts t (mix l p q))).
+Proof.
+  intros H Hp Hq Hl. destruct (apply_mix t l p q) as [Ex Ey]. unfold inside. rewrite Ex, Ey.
+  apply inside_convex; [apply (path_abs_contains_vertex t pts b p H Hp) | apply (path_abs_contains_vertex t pts b q H Hq) | exact Hl].
+Qed.
+
+(* groups, by induction over the tree: the absolute box of a group contains, for every path below it at any depth and
+   whatever the transforms are, the image of every vertex under that path's absolute transform *)
+Lemma fold_opt_some_stays {A} (f : A -> option box) (l : list A) : forall a,
+  a <> None -> fold_left (fun acc c => match f c with Some b => expand acc b | None => acc end) l a <> None.
+Proof.
+  induction l as [|x r IH]; cbn [fold_left]; intros a Ha; [exact Ha|].
+  apply IH. destruct (f x); [destruct a; discriminate | exact Ha].
+Qed.
+Lemma fold_opt_some_if {A} (f : A -> option box) (l : list A) c bc : forall a,
+  In c l -> f c = Some bc -> fold_left (fun acc x => match f x with Some b => expand acc b | None => acc end) l a <> None.
+Proof.
+  induction l as [|x r IH]; cbn [fold_left]; intros a Hc Hf; [contradiction|]. destruct Hc as [Hc|Hc].
+  - subst x. rewrite Hf. apply fold_opt_some_stays. destruct a; discriminate.
+  - apply IH; assumption.
+Qed.
+
+Lemma ptree_ind2 (P : ptree -> Prop) :
+  (forall a pts, P (PLeaf a pts)) -> (forall b, P (PFixed b)) -> (forall ch, Forall P ch -> P (PGroup ch)) -> forall n, P n.
+Proof.
+  intros HL HF HG. fix IH 1. intros [a pts|b|ch]; [apply HL | apply HF | apply HG].
+  induction ch as [|x r IHr]; constructor; [apply IH | exact IHr].
+Qed.
+
+Lemma tree_points_have_box : forall n ap, In ap (leaf_points n) -> exists b, pt_abs_box n = Some b.
+Proof.
+  induction n as [a pts|b0|ch IHch] using ptree_ind2; intros ap Hin; cbn [leaf_points pt_abs_box] in *.
+  - apply in_map_iff in Hin. destruct Hin as (p & _ & Hp).
+    unfold path_abs_bbox. destruct (ts_has_skew a).
+    + apply (pts_bbox_some _ (apply_ts a p)). apply in_map. exact Hp.
+    + destruct (pts_bbox_some pts p Hp) as (b0 & E). rewrite E. unfold rect_transform. destruct (ts_is_identity a); eauto.
+  - contradiction.
+  - apply in_flat_map in Hin. destruct Hin as (c & Hc & Hap).
+    rewrite Forall_forall in IHch. destruct (IHch c Hc ap Hap) as (bc & Ebc).
+    destruct (fold_left (fun acc c => match pt_abs_box c with Some b => expand acc b | None => acc end) ch None) as [b|] eqn:E; [eauto|].
+    exfalso. exact (fold_opt_some_if pt_abs_box ch c bc None Hc Ebc E).
+Qed.
+
+Theorem tree_abs_box_contains_points : forall n b a p,
+  pt_abs_box n = Some b -> In (a, p) (leaf_points n) -> inside b (map_x a (fst p) (snd p)) (map_y a (fst p) (snd p)).
+Proof.
+  induction n as [a0 pts|b0|ch IHch] using ptree_ind2; intros b a p H Hin; cbn [leaf_points pt_abs_box] in *.
+  - apply in_map_iff in Hin. destruct Hin as (p0 & E & Hp). inversion E; subst. apply (path_abs_contains_vertex a pts b p H Hp).
+  - contradiction.
+  - apply in_flat_map in Hin. destruct Hin as (c & Hc & Hap).
+    destruct (tree_points_have_box c (a, p) Hap) as (bc & Ebc).
+    destruct (fold_expand_contains pt_abs_box ch None b H) as [_ Hcont].
+    rewrite Forall_forall in IHch.
+    apply (inside_of_contains b bc); [apply (Hcont c bc Hc Ebc) | apply (IHch c Hc bc a p Ebc Hap)].
+Qed.
+
+(* ... and every point of a segment between two vertices drawn under the same absolute transform *)
+Theorem tree_abs_box_contains_segments n b a p q l :
+  pt_abs_box n = Some b -> In (a, p) (leaf_points n) -> In (a, q) (leaf_points n) -> 0 <= l <= 1 ->
+  inside b (fst (apply_ts a (mix l p q))) (snd (apply_ts a (mix l p q))).
+Proof.
+  intros H Hp Hq Hl. destruct (apply_mix a l p q) as [Ex Ey]. unfold inside. rewrite Ex, Ey.
+  apply inside_convex; [apply (tree_abs_box_contains_points n b a p H Hp) | apply (tree_abs_box_contains_points n b a q H Hq) | exact Hl].
+Qed.
+
+(* a child's absolute box is contained in its parent's, for arbitrary transforms *)
+Theorem tree_child_box_contained ch b c bc :
+  pt_abs_box (PGroup ch) = Some b -> In c ch -> pt_abs_box c = Some bc -> contains b bc.
+Proof.
+  cbn [pt_abs_box]. intros H Hc Ebc. destruct (fold_expand_contains pt_abs_box ch None b H) as [_ Hcont]. exact (Hcont c bc Hc Ebc).
+Qed.
